@@ -1,5 +1,6 @@
 import Driver.Proto
 import ZipVerif.Model.Text
+import ZipVerif.Model.Reader
 /- C19 ops: `text.*`.  Scalars are printed as comma-separated lower-case hex (`-` = empty); every
    successful response starts with the class token `ok`. -/
 
@@ -70,6 +71,25 @@ def opText (op : String) (a : Args) : Option String := do
       | .ok n => s!"sname={showScalars n} sraw={toHex name}"
       | .err e => Out.className e
       | .panic _ => "panic"
+    some s!"{central} {stream}"
+  | "text.arch" =>
+    -- the WHOLE reader model on the archive bytes: `ZipArchive::new` (central header parser incl.
+    -- `parse_extra_field`) and `read_zipfile_from_stream` (local header parser); names are printed as the
+    -- scalar values of the `String` the model holds (its UTF-8 bytes decoded back, `utf8Lossy_encode`)
+    let zip ← a.hex? "zip"
+    match openArchive.runPure (Dev.ofBytes zip) with
+    | (.err e, _) => some (Out.className e)
+    | (.panic _, _) => some "panic"
+    | (.ok ar, _) =>
+    match ar.files[0]? with
+    | none => some "err notfound"
+    | some f =>
+    let central := s!"ok name={showScalars (utf8Lossy f.fileName)} comment={showScalars (utf8Lossy f.fileComment)} raw={toHex f.fileNameRaw}"
+    let stream := match streamHeader.runPure (Dev.ofBytes zip) with
+      | (.ok (some f), _) => s!"sname={showScalars (utf8Lossy f.fileName)} sraw={toHex f.fileNameRaw}"
+      | (.ok none, _) => "err nofile"
+      | (.err e, _) => Out.className e
+      | (.panic _, _) => "panic"
     some s!"{central} {stream}"
   | "text.write" =>
     let cs ← (a.get? "chars").bind parseChars
